@@ -396,7 +396,7 @@ PROPS["C02"] = dict(
     level_text="exploration: generated scenarios (random FSG automata with nulls, loops, branching into and out of states, explicit alternates; right-linear "
                "and slot JSGF incl. word loops; alignment text; vocabularies with one-, two- and many-phone words; fillers and alternates on/off; "
                "lw/wip/pip/silprob/fillprob varied; en-us and fr-fr; triphone and cionly; speech excerpts of 5-400 frames and adversarial signals; all "
-               "calling patterns). Open beams (70%): reported score == oracle optimum over all legal alignments ending in the final state at the last "
+               "calling patterns). Open beams (62%): reported score == oracle optimum over all legal alignments ending in the final state at the last "
                "frame (both directions: not lower, not higher), no result iff no legal alignment exists, segmentation reaches the last frame, and the "
                "reported words and boundaries admit an alignment of exactly that score. Default / narrow beams: reported score <= optimum at the "
                "frame where the reported path ends, and <= the best alignment of the reported segmentation.",
@@ -405,7 +405,7 @@ PROPS["C02"] = dict(
                "oracle's domain (both bundled models); the scoring conventions of a 'legal alignment' are listed in DESIGN.md section C02",
     rule="one case = one scenario; non-trivial = oracle and real search both ran; distinct = case index.",
     stages=[dict(harness="h_viterbi", flavor="asan", quick=160, thorough=2500), dict(harness="h_viterbi", flavor="fast", quick=400, thorough=10000, name="h_viterbi_fast")],
-    floor=dict(min_evaluations=300, min_distinct=300, counters={"oracle_runs": 300, "exact_optimum_matches": 150, "agreed_no_alignment_exists": 5, "pruned_scores_not_above_optimum": 40,
+    floor=dict(min_evaluations=300, min_distinct=300, counters={"oracle_runs": 300, "exact_optimum_matches": 120, "agreed_no_alignment_exists": 5, "pruned_scores_not_above_optimum": 20,
                                                               "segmentations_achieve_reported_score": 150, "grammars_with_null_arcs": 40, "grammars_with_one_phone_words": 20,
                                                               "grammars_with_word_loops": 30, "grammars_with_fillers": 100, "grammars_without_fillers": 20, "cionly_cases": 10}),
     assumptions=[A_SAN, A_GEN, "senone scores re-computed by the harness through acmod_score with compallsen equal those the search used",
